@@ -743,9 +743,15 @@ Move Position::parse_san(const std::string& str)
     Move* begin = movelist;
     Move* end = generate_moves(*this, color(), begin);
 
-    if (str == "0-0" || str == "O-O")
+    // castling may carry a check or mate suffix as well
+    std::string castling_str = str;
+    if (!castling_str.empty() &&
+        (castling_str.back() == '+' || castling_str.back() == '#'))
+        castling_str.pop_back();
+
+    if (castling_str == "0-0" || castling_str == "O-O")
         return std::find(begin, end, KING_CASTLING_MOVE) != end ? KING_CASTLING_MOVE : NO_MOVE;
-    if (str == "0-0-0" || str == "O-O-O")
+    if (castling_str == "0-0-0" || castling_str == "O-O-O")
         return std::find(begin, end, QUEEN_CASTLING_MOVE) != end ? QUEEN_CASTLING_MOVE : NO_MOVE;
 
     std::smatch match;
@@ -779,6 +785,8 @@ Move Position::parse_san(const std::string& str)
     for (Move* it = begin; it != end; ++it)
     {
         Move move = *it;
+        // castling moves carry no from/to squares and never match a piece move
+        if (castling(move) != NO_CASTLING) continue;
         if (make_piece_kind(piece_at(from(move))) == moved_piece &&
                 (!from_file || file(from(move)) == from_file.value()) &&
                 (!from_rank || rank(from(move)) == from_rank.value()) &&
